@@ -107,7 +107,7 @@ def all_inputs(g):
             if s not in seen:
                 seen.add(s)
                 out.append(s)
-    for x in list(g.extra) + list(getattr(g, "real_extra", [])):
+    for x in list(g.extra) + list(getattr(g, "real_extra", [])) + list(getattr(g, "huge_extra", [])):
         s = "".join(x)
         if s not in seen:
             seen.add(s)
